@@ -11,7 +11,7 @@ EXPLANATION = (
     "(sender_ip, sender_mac) only from a successfully decoded packet; Arp::resolve awaits only tokio Timeout futures "
     "of the constant RESEND_DELAY inside a loop over the constant range 0..RESEND_TRIES whose exhaustion leads to "
     "fail_mac + Err; ArpTable::get_mac subscribes before its first table read; the default gateway replaces the "
-    "remote exactly on the branch where the masked network ids differ. Decides these clauses for all inputs and "
+    "remote exactly on the branch where the masked network ids differ; (A-MUST) on the formula of Arp::demux every decoded packet that is not a Request is learned from, whoever sent it, and every Request for an address in local_ips is answered. Decides these clauses for all inputs and "
     "schedules; success under partial loss and agreement of concurrent resolvers are runtime behaviour (not decided).")
 ASSUMPTIONS = ["tokio::time::timeout(d, f) completes within d of being first polled", "watch::Receiver::changed observes every send after subscribe()"]
 
